@@ -105,13 +105,17 @@ func (e *c10ex) Exec(op string) string {
 		e.ids[dec(w[1])] = true
 		e.nontrivial = true
 		return okErr(e.a.Do(wd.AdminU, "channelTransferByAdmin", dec(w[1]), "CC", e.u(w[2]).Addr, e.token(), w[3]))
-	case "from":
+	case "from", "fromlc":
 		if len(w) != 4 || e.u(w[2]) == nil {
 			return "bad-op"
 		}
 		e.ids[dec(w[1])] = true
 		e.nontrivial = true
-		return okErr(e.a.Do(e.u(w[2]), "channelTransferByCustomer", dec(w[1]), "CC", e.token(), w[3]))
+		dst := "CC"
+		if w[0] == "fromlc" {
+			dst = "cc" // the customer's own spelling of the destination channel
+		}
+		return okErr(e.a.Do(e.u(w[2]), "channelTransferByCustomer", dec(w[1]), dst, e.token(), w[3]))
 	case "to":
 		if len(w) != 4 || e.u(w[2]) == nil {
 			return "bad-op"
@@ -240,7 +244,7 @@ func genC10(c *Cfg, emit func([]string)) {
 	if c.Thorough() {
 		depth = 6
 	}
-	alpha := []string{"from t1 u0 40", "fromadm t1 u0 40", "to t1 u0 40", "commit t1", "delto t1", "delfrom t1", "cancel t1"}
+	alpha := []string{"from t1 u0 40", "fromlc t1 u0 40", "fromadm t1 u0 40", "to t1 u0 40", "commit t1", "delto t1", "delfrom t1", "cancel t1"}
 	for _, dir := range []string{"f", "b", "g", "h"} {
 		var rec func(prefix []string, d int)
 		rec = func(prefix []string, d int) {
@@ -308,7 +312,7 @@ func genC10(c *Cfg, emit func([]string)) {
 				id := fmt.Sprintf("t%d", 1+c.Rng.Intn(3))
 				u := users[c.Rng.Intn(2)]
 				amt := []int{0, 1, 40, 50, 100, 101}[c.Rng.Intn(6)]
-				h = append(h, fmt.Sprintf("%s %s %s %d", []string{"from", "from", "fromadm"}[c.Rng.Intn(3)], id, u, amt))
+				h = append(h, fmt.Sprintf("%s %s %s %d", []string{"from", "from", "fromadm", "fromlc"}[c.Rng.Intn(4)], id, u, amt))
 				trs = append(trs, tr{id, u, amt})
 			} else {
 				t := trs[c.Rng.Intn(len(trs))]
